@@ -8,7 +8,7 @@ one() {
   D=$1; id=$(basename $D); P=${id%-*}
   W=/tmp/rs/$id
   rm -rf $W; git -C /repo worktree add -q --detach $W HEAD 2>/dev/null || { echo "$id: worktree failed"; return; }
-  if git -C $W apply $D/patch.diff 2>/dev/null; then
+  if git -C $W apply $D/patch.diff 2>/dev/null || git -C $W apply --3way $D/patch.diff 2>/dev/null; then
     (cd /verif && VERIF_REPO=$W timeout 2400 ./check $P --tier quick > /tmp/rs/$id.out 2>&1); rc=$?
     v=$(grep -c '^VIOLATION' /tmp/rs/$id.out)
     if [ $rc = 1 ] && [ $v -gt 0 ]; then echo "$id caught"; else echo "$id MISSED rc=$rc"; fi
